@@ -565,11 +565,219 @@ fn dfs(ctx: &CheckCtx, mode: Mode, actors: Vec<Vec<AOp>>, max: u64) -> Option<Fo
     found
 }
 
+
+// ------------------------------------------------------------------------------------------------
+// "inloop" family: stop / wake / complete issued from a source callback ON the loop thread while run() or block_on()
+// is in progress. Fully deterministic (no second thread), judged against a small reference model of the documented
+// loop: run(): [callbacks, idles, closure] per iteration, leaves after the iteration in which stop() was called;
+// block_on(): polls initially; after each dispatch: stop requested => None; else woken => poll, Ready => Some.
+
+#[derive(Serialize, Deserialize, Debug, Clone, Copy, Hash, PartialEq, Eq)]
+pub enum InAct {
+    Stop,
+    /// make the future ready (block_on; no-op in run mode)
+    Complete,
+    /// wake the future's waker (block_on; no-op in run mode)
+    Wake,
+    /// LoopSignal::wakeup()
+    Wakeup,
+    /// insert an idle callback (must run in this iteration, before run() leaves)
+    Idle,
+}
+
+#[derive(Serialize, Deserialize, Debug, Clone, Hash, PartialEq, Eq)]
+pub struct InCase {
+    pub block_on: bool,
+    /// one entry per loop iteration: what the (re-armed) timer callback of that iteration does, in order
+    pub rounds: Vec<Vec<InAct>>,
+}
+
+fn in_strategy() -> impl Strategy<Value = InCase> {
+    let act = prop_oneof![3 => Just(InAct::Stop), 3 => Just(InAct::Complete), 4 => Just(InAct::Wake), 1 => Just(InAct::Wakeup), 2 => Just(InAct::Idle)];
+    (any::<bool>(), proptest::collection::vec(proptest::collection::vec(act, 0..=4), 1..=5)).prop_map(|(block_on, rounds)| InCase { block_on, rounds })
+}
+
+struct InFut {
+    complete: Arc<AtomicBool>,
+    waker: Arc<Mutex<Option<Waker>>>,
+    polls: Arc<AtomicU32>,
+}
+
+impl Future for InFut {
+    type Output = u32;
+    fn poll(self: Pin<&mut Self>, cx: &mut Context<'_>) -> Poll<u32> {
+        self.polls.fetch_add(1, Ordering::SeqCst);
+        *self.waker.lock().unwrap() = Some(cx.waker().clone());
+        if self.complete.load(Ordering::SeqCst) {
+            Poll::Ready(4242)
+        } else {
+            Poll::Pending
+        }
+    }
+}
+
+pub fn run_inloop(case: &InCase) -> CaseOutcome {
+    crate::driver::HEARTBEAT.fetch_add(1, Ordering::Relaxed);
+    // ---- reference model
+    let mut rounds = case.rounds.clone();
+    // the harness's own ending: a last round that stops (counts as "ended by the harness" if reached)
+    rounds.push(vec![InAct::Stop]);
+    let mut m_ready = false; // future_ready after the initial poll
+    let mut m_complete = false;
+    let mut m_polls_min = 1u32; // initial poll
+    let mut want: Option<Option<u32>> = None; // Some(result) once decided
+    let mut rounds_run = 0usize;
+    let mut idles_want = 0u32;
+    for r in &rounds {
+        rounds_run += 1;
+        let mut stopped = false;
+        for a in r {
+            match a {
+                InAct::Stop => stopped = true,
+                InAct::Complete => m_complete = true,
+                InAct::Wake => m_ready = true,
+                InAct::Wakeup => {}
+                InAct::Idle => idles_want += 1,
+            }
+        }
+        if stopped {
+            want = Some(None);
+            break;
+        }
+        if case.block_on && m_ready {
+            m_ready = false;
+            m_polls_min += 1;
+            if m_complete {
+                want = Some(Some(4242));
+                break;
+            }
+        }
+    }
+    let want = want.expect("the last round stops");
+    // ---- real side
+    let mut el: EventLoop<'static, ()> = EventLoop::try_new().expect("event loop");
+    let signal = el.get_signal();
+    let handle = el.handle();
+    let complete = Arc::new(AtomicBool::new(false));
+    let waker: Arc<Mutex<Option<Waker>>> = Arc::new(Mutex::new(None));
+    let polls = Arc::new(AtomicU32::new(0));
+    let cb_rounds = Arc::new(AtomicU32::new(0));
+    let idles_ran = Arc::new(AtomicU32::new(0));
+    let closure_runs = Arc::new(AtomicU32::new(0));
+    {
+        let rounds = rounds.clone();
+        let (complete, waker, cb_rounds, idles_ran, signal) = (complete.clone(), waker.clone(), cb_rounds.clone(), idles_ran.clone(), signal.clone());
+        let h2 = handle.clone();
+        handle
+            .insert_source(calloop::timer::Timer::immediate(), move |_, _, _| {
+                let k = cb_rounds.fetch_add(1, Ordering::SeqCst) as usize;
+                if let Some(r) = rounds.get(k) {
+                    for a in r {
+                        match a {
+                            InAct::Stop => signal.stop(),
+                            InAct::Complete => complete.store(true, Ordering::SeqCst),
+                            InAct::Wake => {
+                                let w = waker.lock().unwrap().clone();
+                                if let Some(w) = w {
+                                    w.wake();
+                                }
+                            }
+                            InAct::Wakeup => signal.wakeup(),
+                            InAct::Idle => {
+                                let n = idles_ran.clone();
+                                let _ = h2.insert_idle(move |_| {
+                                    n.fetch_add(1, Ordering::SeqCst);
+                                });
+                            }
+                        }
+                    }
+                    calloop::timer::TimeoutAction::ToDuration(Duration::ZERO)
+                } else {
+                    calloop::timer::TimeoutAction::Drop
+                }
+            })
+            .expect("insert timer");
+    }
+    let cr = closure_runs.clone();
+    let got: Result<Option<u32>, String> = if case.block_on {
+        el.block_on(InFut { complete: complete.clone(), waker: waker.clone(), polls: polls.clone() }, &mut (), move |_| {
+            cr.fetch_add(1, Ordering::SeqCst);
+        })
+        .map_err(|e| format!("{e}"))
+    } else {
+        el.run(None, &mut (), move |_| {
+            cr.fetch_add(1, Ordering::SeqCst);
+        })
+        .map(|()| None)
+        .map_err(|e| format!("{e}"))
+    };
+    let mut info = CaseInfo::default();
+    info.fingerprint = fingerprint(case);
+    let stop_in_case = case.rounds.iter().any(|r| r.contains(&InAct::Stop));
+    let same_round = case.rounds.iter().any(|r| r.contains(&InAct::Stop) && (r.contains(&InAct::Wake) || r.contains(&InAct::Idle)));
+    info.nontrivial = stop_in_case && same_round;
+    info.classes.push(if case.block_on { "inloop_block_on" } else { "inloop_run" });
+    if same_round {
+        info.classes.push("inloop_stop_and_wake_or_idle_in_one_callback");
+    }
+    let viol = (|| {
+        let got = match got {
+            Ok(g) => g,
+            Err(e) => return Some(Violation::new("C11.inloop", format!("loop returned an error: {e}"))),
+        };
+        let rounds_got = cb_rounds.load(Ordering::SeqCst) as usize;
+        if case.block_on {
+            if got != want {
+                let why = match (got, want) {
+                    (Some(_), None) => "stop() was requested (from a callback on the loop thread) before the future completed",
+                    (None, Some(_)) => "the future was woken and ready before any stop request",
+                    _ => "wrong output",
+                };
+                return Some(Violation::new("C11.block_on_result", format!("block_on returned {got:?}, expected {want:?}: {why}")).with_sig("C11.block_on_result/inloop"));
+            }
+            let p = polls.load(Ordering::SeqCst);
+            if p < m_polls_min {
+                return Some(Violation::new("C11.block_on_wake", format!("the future was polled {p} times, at least {m_polls_min} expected (initially and after every dispatch that woke it)")).with_sig("C11.block_on_wake/inloop"));
+            }
+        }
+        if rounds_got != rounds_run {
+            return Some(
+                Violation::new(
+                    "C11.stop",
+                    format!("the loop ran {rounds_got} iterations' worth of callbacks, expected exactly {rounds_run} (it has to finish the iteration in which stop() was called, and no further one)"),
+                )
+                .with_sig("C11.stop/inloop"),
+            );
+        }
+        // idles inserted in iterations that ran must all have run before the loop left
+        let idles_expected: u32 = rounds.iter().take(rounds_run).map(|r| r.iter().filter(|a| **a == InAct::Idle).count() as u32).sum();
+        let _ = idles_want;
+        let ir = idles_ran.load(Ordering::SeqCst);
+        if ir != idles_expected {
+            return Some(Violation::new("C11.stop", format!("{ir} idle callbacks ran, {idles_expected} were inserted in the iterations the loop completed")).with_sig("C11.stop/inloop-idles"));
+        }
+        let c = closure_runs.load(Ordering::SeqCst) as usize;
+        // the per-iteration closure runs once per completed iteration (block_on: also after the last dispatch unless it returned Some at its head)
+        let lo = if case.block_on { rounds_run.saturating_sub(1) } else { rounds_run };
+        if c < lo || c > rounds_run {
+            return Some(Violation::new("C11.stop", format!("the per-iteration closure ran {c} times in {rounds_run} iterations")).with_sig("C11.stop/inloop-closure"));
+        }
+        None
+    })();
+    (info, viol)
+}
+
 pub fn check(ctx: &CheckCtx) -> Option<Found> {
     if let Some(f) = ctx.run_replays::<Case, _>("sched", run_case) {
         return Some(f);
     }
+    if let Some(f) = ctx.run_replays::<InCase, _>("inloop", run_inloop) {
+        return Some(f);
+    }
     let t = ctx.tier;
+    if let Some(f) = ctx.search("inloop", in_strategy(), t.pick(6000, 200_000), 8, None, run_inloop) {
+        return Some(f);
+    }
     if let Some(f) = ctx.search("sched", case_strategy(), t.pick(4000, 100_000), 6, None, run_case) {
         return Some(f);
     }
@@ -590,7 +798,11 @@ pub fn check(ctx: &CheckCtx) -> Option<Found> {
     None
 }
 
-pub fn replay(_ctx: &CheckCtx, _sub: &str, case: serde_json::Value) -> Result<Option<Violation>, String> {
+pub fn replay(_ctx: &CheckCtx, sub: &str, case: serde_json::Value) -> Result<Option<Violation>, String> {
+    if sub == "inloop" {
+        let c: InCase = serde_json::from_value(case).map_err(|e| e.to_string())?;
+        return Ok(run_inloop(&c).1);
+    }
     let c: Case = serde_json::from_value(case).map_err(|e| e.to_string())?;
     Ok(run_case(&c).1)
 }
